@@ -396,11 +396,14 @@ func runC09(c lib.Case) []string {
 	w := &c09World{nextID: 1, prefix: "memory:///" + dir + "/", root: storage.NewMemoryFilesystem().WithWorkingDir(dir)}
 	verifhook.Set(w.hook)
 	defer func() {
+		runtime.KeepAlive(w.grave)
 		w.mu.Lock()
 		w.closed = true
+		// the cleanup argument of every loaded table reaches this world through the ownership wrapper: cut the
+		// world's references to the instances, or their tables would stay reachable from their own cleanups forever
+		w.insts, w.grave = nil, nil
 		w.mu.Unlock()
 		verifhook.Set(nil)
-		runtime.KeepAlive(w.grave)
 	}()
 
 	inst := func(s string) *c09Inst {
@@ -1127,7 +1130,7 @@ func propC09() *lib.Prop {
 		FeedImpl: true,
 		NumCases: func(tier string) int {
 			if tier == "thorough" {
-				return 1500
+				return 1000
 			}
 			return 160
 		},
